@@ -182,7 +182,8 @@ Proof. vm_compute. repeat split. Qed.
 
 (* Generated/RenderFn.v is written on every run by tools/gen_fn_render.py (tools/rs2v) from the
    Rust sources of DisplayBuffer::{write_str, write_code, as_str} and the
-   as_{fg,bg,underline}_buffer functions of AnsiColor / Ansi256Color / RgbColor, over the Rust
+   as_{fg,bg,underline}_buffer functions of AnsiColor / Ansi256Color / RgbColor and
+   Color::{render_fg, render_bg, render_underline} ([gr_color_*_buffer]), over the Rust
    data layout (a 19-byte array and a length, [rn_dbuf]).  [dbuf_rel d b]: the hand model's
    byte list [b] is buffer[0..len] of [d]; [orel]: both sides panic, or both succeed with
    related states. *)
